@@ -435,6 +435,7 @@ theorem step_uinv {σ} (cfg : Cfg) (app : App σ) (c : Conn σ) (e : Ev) (h : UI
   · exact h
   · cases e with
     | start => simp only; split; exact h; exact h.congr rfl rfl rfl rfl rfl rfl
+    | startFailed => simp only; split; exact h; apply Safe.uinv; left; simp
     | recv toks => simp only; split; exact h; split; exact h; exact handleRead_uinv c _ h
     | recvEof => simp only; split; exact h; split; exact h; exact handleRead_uinv c _ h
     | recvErr r => simp only; split; exact h; split; exact h; exact handleRead_uinv c _ h
